@@ -11,5 +11,5 @@ Extraction "Model.ml"
   cmp shape_eqb wf is_optional as_optional as_non_optional oneof_free size
   mem nodup_keys
   is_subset similar
-  merger merge
+  merger merge no_null_array
   infer_text infer_value array_text array_value conflict_free key_conflict.
